@@ -396,6 +396,91 @@ check('C20', 'proof',
       'Lean 4 kernel evaluation over the regenerated finite alternative language + unit/pipeline correspondence',
       'DESIGN.md §3 C20')
 
+
+# ---------------------------------------------------------------------------------------------------------------------
+# Round 3 (extensions): more of the code inside the model. Appended to the texts above.
+def extend(pid, text, note=''):
+    CHECKS[pid]['level_claimed']['text'] += ' ' + text
+    if note:
+        CHECKS[pid]['level_note'] += ' ' + note
+
+
+extend('C01',
+       'ROUND 3 — the token arithmetic of the date-time SUB-EXTRACTORS (date, time, duration, date-time, date-period and '
+       'date-time-period range merging, the ago/later utility; Props/C01DtExtract, 38 theorems) is modelled function by '
+       'function over abstract match facts and proved for ALL regex outcomes and ALL sub-extractor results lying inside the '
+       'text: every token handed to merge_all_tokens satisfies 0 <= start <= end <= |text|, hence '
+       '(subextractor_results_ok) every ExtractResult is inside the text, its text is the slice at its span and results '
+       'are pairwise disjoint; exact guards + witness theorems where the code does not guarantee it (year + week-day double '
+       'extension, in-prefix connector reversal, time-period "between after", match_duration suffix look-up, from/between '
+       'index taken in the stripped prefix). Tie: recorded-call correspondence over six cultures (~7,000 frames per quick '
+       'run, theorem hypotheses monitored on every frame).',
+       'The set / holiday / timezone extractors and the remaining period-extractor functions are reached by the pipeline '
+       'predicate only.')
+extend('C12',
+       'ROUND 3 — the sub-extractor token theorems of Props/C01DtExtract (see C01) are also required here: tokens inside '
+       'the text + mergeAllTokens_disjoint give pairwise disjoint sub-extractor results for any regex behaviour; recorded '
+       'finding range-prefix-index-leading-blank (from/between index taken in the stripped prefix) with witness theorem.')
+extend('C03',
+       'ROUND 3 — the suffix-multiplier, "point", fraction and power paths of BaseNumberParser are modelled function by '
+       'function (Model/NumFrac: tokenizer, binary64 mantissa arithmetic, libmpdec integer power; Props/C03Frac, 59 '
+       'theorems): a multiplier suffix is ONE half-even rounding of literal x 10^k, exact up to 15 digits, for every literal '
+       'shape of all eight BaseNumberParser cultures (suffix_exact_literal); digit words after "point" give the exact '
+       'decimal (point_digits_exact); a/b, w a/b, -a/b are the 15-digit Decimal quotient plus the integer part '
+       '(fraction_notation_value); M e E, M x10^ E and N ^ E are exact while the result fits 15 digits (power_e_exact, '
+       'power_x10_exact, power_caret_exact — libmpdec square-and-multiply proved exact). ~70k unit operations per run '
+       'against the real parsers of en/es/fr(/de) fed extractor-built ExtractResults, ~7k generated expressions through '
+       'recognize_number with an exact-rational oracle. Defects found: 1.5x10^3 (repaired in /repo, variant switch, '
+       'regression witness), mixed numbers in hundredths, "thirty-seconds" (recorded, witness theorems).',
+       'The sign / multiplier / half-a-dozen regexes are inputs computed by the real configuration; the list-data branch of '
+       'parse and non-integral exponents are outside the model.')
+extend('C04',
+       'ROUND 3 — the whole CJKNumberParser (Chinese and Japanese configurations) is modelled function by function over '
+       "Python's int / float (software binary64 with shortest repr) / Decimal, with the configuration's eleven regexes "
+       'regenerated as RE terms and executed in Lean (Props/C04Cjk): theorems for every configuration and string on how the '
+       'ordinal, sign, dozen, fraction, decimal and percentage paths compose (cjk_ordinal_is_cardinal, cjk_sign_restores, '
+       'cjk_fraction_value, cjk_double_value, cjk_percent_plain/_scaled); kernel evaluation of the typed integer walk for '
+       'every numeral below 10000 and of whole-parse families (ordinals, signs, dozens, all 81 cheng/zhe combinations, '
+       'fractions, digit strings); negative theorems give the exact failure set of spelled decimals (binary-float '
+       'get_point_value: recorded finding). ~79k unit operations per run + exact-rational pipeline oracles.',
+       'The Pow path of the CJK parser (covered by NumFrac for the base parser) and the extractor regexes are not modelled.')
+extend('C07',
+       'ROUND 3 — BaseTimePeriodParser.parse_pure_numbers / parse_specific_time / parse_time_of_day and the order of '
+       'parse, and BaseDateTimeParser\'s "now", "end of day/date" and "N units ago/later" are modelled (Model/TimePeriod; '
+       'Props/C07TimePeriod, 35 theorems): the am/pm rules of hour-pair ranges for all 12-hour pairs (12 am = 00, 12 pm = '
+       '12), every successful parse_specific_time computation yields begin <= end < begin + 24 h and a (Tb,Te,PT..) TIMEX '
+       'satisfying the C10 triple predicate, exact endpoints when both sides carry am/pm, the part-of-day table row by '
+       'row, ago/later = reference -/+ N x unit seconds for every reference and N, "now" = the reference. ~32k unit calls of '
+       'the real English and Spanish methods per run + a pipeline oracle on designated "from A to B" ranges. Three defects '
+       'of parse_specific_time found and REPAIRED in /repo (12 am end not folded, seconds dropped, minute attributed by a '
+       'substring test): variant switches, witnesses kept as regressions.')
+extend('C10',
+       'ROUND 3 — (a) Props/C10Periods (33 theorems on BaseDatePeriodParser: month/year/half-year/quarter/simple case/week '
+       'of year and month/which week/duration prefixes/merge of two points) is now a property module of this check; the '
+       'numbered week-of-year TIMEX defect was repaired in /repo (week_of_year_numbered_spec at full strength). (b) '
+       'BaseDateTimePeriodParser (Model/DtPeriod; Props/C10DtPeriod, 27 theorems): two-point merges, date + time period, '
+       'hour pairs, part-of-day table, "last/next N units", "next hour", "rest of the day" — for every reference and input '
+       'the definite ordered cases give valid datetimes with begin <= end and a triple satisfying tripleOK, parts of day '
+       'never cross midnight, dated cases are reference-independent, and exactly when the code emits an end before its '
+       'begin (reversed hour pairs, a period crossing midnight on one date, durations without a known prefix: proved '
+       'rejected for all inputs; five recorded dtperiod:* findings). ~8k unit calls per run. (c) every path of '
+       'BaseDurationParser and BaseSetParser (Model/Durations over a software binary64 reproducing float(Decimal), float '
+       '+ and x, float_or_int and repr; Props/C10Durations, 40 theorems): every path writes P[T]<amount><unit letter> with '
+       'value amount x seconds; integral amounts below 2^53 are exact at any size; "and a half/quarter" add exactly 1/2 / '
+       '1/4; witnesses for float products (1.15 days), unit codes with a numeric or two-letter form (decade P31, fortnight '
+       'P32, weekend), the magnitude guard on one path only. ~100k unit operations over eight cultures per run.')
+extend('C11',
+       'ROUND 3 — range values agree with a definite period TIMEX (Model/DefiniteRange, Props/C11Range): periodOf reads the '
+       'period off YYYY / YYYY-MM / YYYY-Www / YYYY-Www-WE; week_period_range_definite: for EVERY reference and shift the '
+       'modelled "this/next/last week" satisfies the predicate (TIMEX = ISO year-week of [begin, end)); the predicate is '
+       'evaluated through the driver on every daterange value of the real model — strictly (equality) on plain period '
+       'expressions of every culture (the committed C08 contract texts) under references at year and month turns, as '
+       'containment elsewhere ("later this week" is a sub-range without Mod on every platform). It found the numbered '
+       'week-of-year TIMEX defect (repaired in /repo).')
+extend('C16',
+       'ROUND 3 — MatchStrategy.AcAutomaton is probed with the same oracle (recorded finding acautomaton-unusable: the port '
+       'cannot be constructed).')
+
 ALL_IDS = ['C%02d' % i for i in range(1, 21)]
 PENDING = 'check not built yet in this revision (work in progress; see DESIGN.md §8 build order)'
 
